@@ -783,7 +783,30 @@ Definition kind_probes : list probe := [
     "[object Object],[object Array],[object Function],string,number,boolean,[object RegExp],[object Error],[object Date],[object String],[object Number],[object Boolean]"
 ].
 
-Definition all_probes : list probe := (probes ++ ext_probes ++ kind_probes)%list.
+(* the pinned witnesses of the findings that were repaired in /repo, kept as regression
+   cases with the ES5 answer; they run in every history *)
+Definition regression_probes : list probe := [
+  P "fixed:C14-function-lengths"
+    "[Math.atan2.length,Number.prototype.toString.length,Number.prototype.toLocaleString.length].join()"
+    "2,1,0";
+  P "fixed:C14-string-index-enumerable"
+    "[Object.getOwnPropertyDescriptor(new String('ab'),'0').enumerable,Object.keys(new String('ab')).join()].join()"
+    "true,0,1";
+  P "fixed:C14-date-prototype-value"
+    "[Date.prototype.getTime(),Date.prototype.valueOf(),Date.prototype.getFullYear(),Date.prototype.getUTCDay(),Date.prototype.toJSON()===null].join()"
+    "NaN,NaN,NaN,NaN,true";
+  P "fixed:C14-nativeerror-prototype-class"
+    "[EvalError,RangeError,ReferenceError,SyntaxError,TypeError,URIError].map(function(c){return Object.prototype.toString.call(c.prototype)}).join()"
+    "[object Error],[object Error],[object Error],[object Error],[object Error],[object Error]";
+  P "fixed:C14-descriptor-panic"
+    "(function(){var a=Object.getOwnPropertyDescriptor(function(){},'caller'),b=Object.getOwnPropertyDescriptor(new Error('m'),'stack');return [typeof a,'value' in a,a.enumerable,typeof b,'value' in b].join()})()"
+    "object,false,false,object,false";
+  P "fixed:C14-bound-instanceof"
+    "(function(){function K(){}var B=K.bind(null);return [new B instanceof B,new K instanceof B,({}) instanceof B].join()})()"
+    "true,true,false"
+].
+
+Definition all_probes : list probe := (probes ++ ext_probes ++ kind_probes ++ regression_probes)%list.
 
 (* the standard objects that must have a kind probe *)
 Definition kind_required : list string :=
